@@ -236,7 +236,13 @@ impl PreObjective {
 
 impl fmt::Display for PreObjective {
     fn fmt(&self, f: &mut fmt::Formatter<'_>) -> fmt::Result {
-        write!(f, "{} {}", self.objective_type, self.rhs)
+        match self.objective_type {
+            // `solve` takes no expression in the grammar
+            OptimizationType::Satisfy => write!(f, "{}", self.objective_type),
+            OptimizationType::Min | OptimizationType::Max => {
+                write!(f, "{} {}", self.objective_type, self.rhs)
+            }
+        }
     }
 }
 
